@@ -728,6 +728,35 @@ func init() {
 			parts := make([]string, n)
 			var fargs []Value
 			opaque := false
+			structured := false
+			for i := range parts {
+				if isStructured(in.sliceElem(st, sl, int64(i))) {
+					structured = true
+				}
+			}
+			if structured {
+				// elements are joined with "/" (none of them is empty, contains "//" or ".." in the literal parts)
+				var ps []StrPart
+				for i := range parts {
+					ep, ok := partsOf(in.sliceElem(st, sl, int64(i)))
+					if !ok {
+						panic(unsupported("path.Join of structured and opaque strings"))
+					}
+					if len(ep) == 0 {
+						continue
+					}
+					for _, x := range ep {
+						if x.Num == nil && (strings.Contains(x.Lit, "//") || strings.Contains(x.Lit, "..") || strings.HasSuffix(x.Lit, "/")) {
+							panic(unsupported("path.Join of a structured string that needs cleaning"))
+						}
+					}
+					if len(ps) > 0 {
+						ps = append(ps, StrPart{Lit: "/"})
+					}
+					ps = append(ps, ep...)
+				}
+				return normParts(ps)
+			}
 			for i := range parts {
 				sv := in.sliceElem(st, sl, int64(i)).(StrV)
 				if sv.Fmt != nil {
@@ -876,7 +905,45 @@ func init() {
 				// an already opaque string stays opaque (its content is never inspected)
 				return sv
 			}
+			if sp, ok := structArg(args, 1); ok {
+				// structured source: replace inside the literal parts (the pattern cannot occur inside a number)
+				old := mustStr(args[1], "ReplaceAll")
+				if !sepSafe(sp, old) {
+					panic(unsupported("strings.ReplaceAll on a structured string with a pattern containing digits"))
+				}
+				rp, ok := partsOf(args[2])
+				if !ok {
+					panic(unsupported("strings.ReplaceAll: opaque replacement"))
+				}
+				var ps []StrPart
+				for _, x := range sp {
+					if x.Num != nil {
+						ps = append(ps, x)
+						continue
+					}
+					for i, piece := range strings.Split(x.Lit, old) {
+						if i > 0 {
+							ps = append(ps, rp...)
+						}
+						ps = append(ps, StrPart{Lit: piece})
+					}
+				}
+				return normParts(ps)
+			}
 			src, old := mustStr(args[0], "ReplaceAll"), mustStr(args[1], "ReplaceAll")
+			if rp, ok := partsOf(args[2]); ok && old != "" {
+				if _, conc := concStr(args[2]); !conc {
+					// a pattern instantiated with a symbolic number: structured string
+					var ps []StrPart
+					for i, piece := range strings.Split(src, old) {
+						if i > 0 {
+							ps = append(ps, rp...)
+						}
+						ps = append(ps, StrPart{Lit: piece})
+					}
+					return normParts(ps)
+				}
+			}
 			if rv, ok := args[2].(StrV); ok && rv.Fmt != nil {
 				if !strings.Contains(src, old) {
 					return StrV{S: src}
